@@ -259,6 +259,17 @@ fn operand_pair(ctx: &mut Ctx, emin: i64, emax: i64) -> (Dd, Dd) {
     }
 }
 fn operand_f64(ctx: &mut Ctx, a: Dd, emin: i64, emax: i64) -> f64 {
+    if ctx.chance(1, 10) {
+        // small integers and simple decimal-looking factors (3, 10, 17, 255, 1000, 0.1 ...): what user code multiplies by
+        ctx.label("f64:small-integer");
+        let v = match ctx.below(4) {
+            0 => ctx.range(2, 20) as f64,
+            1 => ctx.range(2, 255) as f64,
+            2 => ctx.range(256, 100_000) as f64,
+            _ => [0.1, 0.2, 0.3, 0.01, 1e3, 1e6, 1e-3, 1.0 / 3.0][ctx.below(8) as usize],
+        };
+        return if ctx.flag() { -v } else { v };
+    }
     if ctx.chance(1, 40) {
         if ctx.flag() {
             0.0
@@ -621,11 +632,35 @@ wrap!(c04_mulassign_tt, |c| c04_op(c, Form::AssignTT));
 wrap!(c04_mulassign_tf, |c| c04_op(c, Form::AssignTF));
 
 /// exact points: multiplying by +-1 is exact; by 2^k exact when lo*2^k does not underflow
+
+/// Operand whose low word, scaled by 2^-k, lands in the lowest normal binades
+/// [2^-1022, 2^-1018): the edge of the "scaled low word does not underflow" clause.
+fn underflow_edge_operand(ctx: &mut Ctx, k: i64) -> Option<Dd> {
+    let t = -1022 + ctx.below(4) as i64; // exponent of the scaled low word
+    let elo = t + k;
+    if elo < -1022 || elo + 54 > 450 {
+        return None;
+    }
+    let m = mantissa(ctx) | (ctx.flag() as u64); // odd last bit half of the time
+    let lo = ((1u64 << 52) | (m & ((1u64 << 52) - 1))) as f64 * pow2_f64(elo - 52);
+    let ehi = ctx.range((elo + 54).max(-450), 450);
+    let hi = ((1u64 << 52) | (mantissa(ctx) & ((1u64 << 52) - 1))) as f64 * pow2_f64(ehi - 52);
+    let d = Dd::new(if ctx.flag() { -hi } else { hi }, if ctx.flag() { -lo } else { lo });
+    ctx.label("operand:underflow-edge");
+    if d.valid() { Some(d) } else { None }
+}
+
 fn c04_exact_points(ctx: &mut Ctx) {
-    let a = operand(ctx, -450, 450);
+    let mut a = operand(ctx, -450, 450);
     let which = ctx.below(6);
-    let k = ctx.range(-200, 200);
+    // every power of two of the stated operand range
+    let k = if ctx.flag() { ctx.range(-200, 200) } else { ctx.range(-450, 450) };
     let s = if ctx.flag() { -1.0 } else { 1.0 };
+    if ctx.chance(1, 4) {
+        if let Some(e) = underflow_edge_operand(ctx, -k) {
+            a = e;
+        }
+    }
     a.key(ctx);
     ctx.key_u64(which);
     ctx.key_u64(k as u64);
@@ -666,7 +701,7 @@ pub fn c04() -> Property {
     let g = |name, eval, quick, thorough| SubCheck { name, kind: Kind::Generated { words: 40, max_items: 0 }, eval, quick, thorough };
     Property {
         id: "C04",
-        rule: "valid operands with hi 0 or in [2^-450,2^450] (low-word classes tie/near-tie/gap/zero; relations incl. equal, negated, neighbouring ulps, powers of two); non-trivial = both operands have a non-zero low word (f64 factor non-zero in mixed forms); distinct = distinct operand bit patterns",
+        rule: "valid operands with hi 0 or in [2^-450,2^450] (low-word classes tie/near-tie/gap/zero; relations incl. equal, negated, neighbouring ulps, powers of two); f64 factors additionally from the small-integer class (2..255, 256..1e5, 0.1, 1e3, 1/3 ...); exact_points: factors ±1 and ±2^k for every |k| <= 450 with operands whose scaled low word sits in [2^-1022, 2^-1018); non-trivial = both operands have a non-zero low word (f64 factor non-zero in mixed forms); distinct = distinct operand bit patterns",
         assumptions: vec![],
         subchecks: vec![
             g("mul_tt", c04_mul_tt, 800_000, 30_000_000),
@@ -822,10 +857,15 @@ wrap!(c05_recip, |c| c05_op(c, DForm::Recip));
 
 /// a/a == 1 exactly (words (1,0)), a/+-1 exact, a/2^k exact when lo/2^k does not underflow
 fn c05_exact_points(ctx: &mut Ctx) {
-    let a = nonzero_operand(ctx, -450, 450);
+    let mut a = nonzero_operand(ctx, -450, 450);
     let which = ctx.below(6);
-    let k = ctx.range(-200, 200);
+    let k = if ctx.flag() { ctx.range(-200, 200) } else { ctx.range(-450, 450) };
     let s = if ctx.flag() { -1.0 } else { 1.0 };
+    if ctx.chance(1, 4) {
+        if let Some(e) = underflow_edge_operand(ctx, k) {
+            a = e;
+        }
+    }
     a.key(ctx);
     ctx.key_u64(which);
     ctx.key_u64(k as u64);
@@ -879,7 +919,7 @@ pub fn c05() -> Property {
     let g = |name, eval, quick, thorough| SubCheck { name, kind: Kind::Generated { words: 48, max_items: 0 }, eval, quick, thorough };
     Property {
         id: "C05",
-        rule: "valid operands with hi in [2^-450,2^450] (zero numerators included), non-zero divisors with tie/near-tie/gap low words, quotient-targeted pairs (a = q*b with q within 2 ulps of a power of two), equal/negated/neighbouring operands; non-trivial = operands with non-zero low words; distinct = distinct operand bit patterns",
+        rule: "valid operands with hi in [2^-450,2^450] (zero numerators included), non-zero divisors with tie/near-tie/gap low words, quotient-targeted pairs (a = q*b with q within 2 ulps of a power of two), equal/negated/neighbouring operands; f64 divisors additionally from the small-integer class; exact_points: divisors ±1, ±2^k for every |k| <= 450 with numerators whose scaled low word sits in [2^-1022, 2^-1018), and a/a; non-trivial = operands with non-zero low words; distinct = distinct operand bit patterns",
         assumptions: vec![],
         subchecks: vec![
             g("div_tt", c05_div_tt, 600_000, 30_000_000),
